@@ -6,5 +6,5 @@ CLAIM = ("Well-formed headers come back with exactly their fields: level-0/1 bas
 ASSUMPTIONS = ["decomposition along the parser's own functions; composition by the call structure of lha_file_header_read (callee stubs carry the contract the callee's harness proves)",
                "mktime/TZ trusted (argument and result of the call are checked)", "C locale (ASCII) for islower/tolower",
                "string allocations are fixed-size objects in functional harnesses (exact sizes in C08's *.safe variants)"]
-HARNESSES = [l01(40), l23(2), l23(3), l1ext(13), walk(16), tail(3)] + ext_all() + [
+HARNESSES = [l01(40), l01long(timeout=3600, tier="thorough"), l23(2), l23(3), l1ext(13), walk(16), tail(3)] + ext_all() + [
     l01(64, timeout=1800, tier="thorough"), l01(96, timeout=3600, tier="thorough"), l1ext(17, timeout=2400, tier="thorough"), walk(24, timeout=1800, tier="thorough"), walk(30, timeout=3600, tier="thorough"), tail(4, timeout=1800, tier="thorough"), tail(5, timeout=3600, tier="thorough")]
